@@ -184,7 +184,7 @@ public:
     }
     validateKeyValue(key, value);
 
-    const auto expiry = std::chrono::system_clock::now() + ttl;
+    const auto expiry = deadlineAfter(ttl);
 
     std::unique_lock<std::shared_mutex> lock(_mutex);
     if (_shutdown.load())
@@ -370,7 +370,7 @@ public:
       }
     }
 
-    const auto expiry = std::chrono::system_clock::now() + ttl;
+    const auto expiry = deadlineAfter(ttl);
 
     std::unique_lock<std::shared_mutex> lock(_mutex);
     if (_shutdown.load())
@@ -816,10 +816,21 @@ private:
   // steady_clock arithmetic (now + delay, in ns) cannot overflow int64 (KTP-11).
   static constexpr std::int64_t kMaxTtlRangeMs = 6'311'520'000'000LL;
 
+  // Last whole millisecond a system_clock::time_point can represent (year 2262
+  // with the usual int64 nanosecond clock). fromEpochMs() of anything larger, and
+  // now() + ttl beyond it, would overflow.
+  static constexpr std::int64_t kLastRepresentableEpochMs =
+      std::chrono::duration_cast<std::chrono::milliseconds>(
+          std::chrono::system_clock::time_point::max().time_since_epoch())
+          .count();
+
   // Plausibility window for a decoded absolute expiry (epoch ms). Values outside
   // it are treated as corruption on replay (KTP-11 sanity bound). The ceiling is
-  // year ~2300; the floor rejects non-positive timestamps.
-  static constexpr std::int64_t kMaxPlausibleEpochMs = 10'413'792'000'000LL;
+  // year ~2300, but never beyond what the clock can represent; the floor rejects
+  // non-positive timestamps.
+  static constexpr std::int64_t kMaxPlausibleEpochMs =
+      kLastRepresentableEpochMs < 10'413'792'000'000LL ? kLastRepresentableEpochMs
+                                                       : 10'413'792'000'000LL;
 
   // Largest totalLen writeLogEntry() can produce for a key/value pair accepted by
   // validateKeyValue(): op(1) + keyLen(4) + key + expiry(8) + valLen(4) + value +
@@ -840,6 +851,18 @@ private:
   static std::chrono::system_clock::time_point fromEpochMs(std::int64_t ms)
   {
     return std::chrono::system_clock::time_point(std::chrono::milliseconds(ms));
+  }
+
+  /// \brief now() + ttl, saturated at the last deadline that can be represented
+  /// and persisted (kMaxPlausibleEpochMs). A plain `now() + ttl` overflows for a
+  /// ttl of a few hundred years (e.g. std::chrono::seconds::max() used as
+  /// "forever"): the deadline wrapped into the past and the key was gone at once.
+  static std::chrono::system_clock::time_point deadlineAfter(std::chrono::seconds ttl)
+  {
+    const auto now = std::chrono::system_clock::now();
+    const auto last = fromEpochMs(kMaxPlausibleEpochMs);
+    const auto room = std::chrono::duration_cast<std::chrono::seconds>(last - now);
+    return ttl > room ? last : now + ttl;
   }
 
   /// \brief True if the key carries an expiry that has already passed (it is
